@@ -358,6 +358,19 @@ Proof.
 Qed.
 Print Assumptions C13_roundtrip_physical_columns.
 
+(* premise (3) spelled out on the logical table and the enum columns: at least one column; every name accepted
+   by qframe.New and without CR; every cell an int64 / a string without CR (cell_rt_ok); every enum column with
+   at most 255 values and, if a null occurs among its indexed rows, EmptyNull set or "" among its values or no
+   values at all (enum_null_ok).  These imply phys_premises. *)
+Theorem C13_physical_premises_on_the_table (e : bool) (f : frame) (t : table) :
+  abs f = Ok t -> NoDup (col_names f) -> cols f <> [] ->
+  Forall (fun n => CsvRead.check_name n = true /\ no_cr n = true) (col_names f) ->
+  Forall (Forall cell_rt_ok) (trows t) ->
+  Forall (fun nc => enum_null_ok e (ix f) (snd nc)) (cols f) ->
+  phys_premises e f = true.
+Proof. exact (phys_premises_intro e f t). Qed.
+Print Assumptions C13_physical_premises_on_the_table.
+
 (* for every well-formed frame (C10: what the library builds - equal physical lengths, index in range in any
    order with or without repetitions, valid enum ranks) abs is defined *)
 Theorem C13_roundtrip_physical_wf
@@ -458,6 +471,18 @@ Proof.
   split; [repeat constructor; cbn; intuition discriminate|].
   repeat split; try (vm_compute; reflexivity).
   vm_compute. repeat constructor; discriminate.
+Qed.
+
+Example C13_physical_premises_on_the_table_example :
+  exists t, abs ex3_f = Ok t /\ cols ex3_f <> [] /\
+    Forall (fun n => CsvRead.check_name n = true /\ no_cr n = true) (col_names ex3_f) /\
+    Forall (Forall cell_rt_ok) (trows t) /\
+    Forall (fun nc => enum_null_ok true (ix ex3_f) (snd nc)) (cols ex3_f).
+Proof.
+  eexists. split; [vm_compute; reflexivity|]. split; [discriminate|]. split; [|split].
+  - repeat constructor.
+  - repeat constructor.
+  - repeat constructor; cbn; auto; unfold enum_max_cardinality; lia.
 Qed.
 
 (* ---- each premise is needed *)
